@@ -14,8 +14,8 @@ import (
 func init() { commands["c12-accept"] = c12Accept }
 
 // faultyListener hands the proxy the error the kernel reports when the process (or the system) has run out of file
-// descriptors - which is what a crowd of clients that connect and sit there brings about - or when a connection was aborted
-// while it waited to be accepted: once, at the n-th Accept.
+// descriptors - which is what a crowd of clients that connect and sit there brings about: once, at the n-th Accept.
+// (ECONNABORTED - a connection aborted while it waited to be accepted - never leaves Go's own accept loop.)
 type faultyListener struct {
 	net.Listener
 	calls atomic.Int64
@@ -35,7 +35,7 @@ func c12Accept(e *env) {
 	for _, f := range []struct {
 		name  string
 		errno syscall.Errno
-	}{{"emfile", syscall.EMFILE}, {"enfile", syscall.ENFILE}, {"econnaborted", syscall.ECONNABORTED}} {
+	}{{"emfile", syscall.EMFILE}, {"enfile", syscall.ENFILE}} {
 		res := map[string]any{"ok": true, "fault": f.name}
 		tl, err := net.Listen("tcp", "127.0.0.1:0")
 		if err != nil {
